@@ -82,7 +82,7 @@ def advance_job(interp, c, case):
     S, q, q0, dt, nqt, syms = _mk_queue(interp, c, R, C, start)
     rp = dict(op="advance", R=R, C=C, start=start)
     sig = "advance R=%d C=%d" % (R, C)
-    out = np.zeros(R, dtype=object)
+    out = sym_array(c, "stale", R, "real")           # the caller's buffer is reused between reads: every entry is overwritten, also by an empty slot
     _report(c, q.get_next_queue_time() == nqt, "get_next_queue_time is the label of the start column", sig + " nqt", rp, syms)
     q.get_next_reactions(ptr(interp, out))
     _report(c, s_and(*[out[i] == q0[i, start] for i in range(R)]),
